@@ -291,3 +291,19 @@ def r4(ctx):
         r.rule = "C16-R4"
         n += 1
         yield r
+
+
+@M.rule("C16-R5", "the string handed to the parser is the carrier's whole timestamp value (decoded on the query carrier; the normalised header value as it is) - shared with C02-R1 / C02-R1h")
+def r5(ctx):
+    """Which strings are timestamps is decided by the pattern (R1) only if the pattern sees the whole value: a cut, trim or
+    re-casing between the lookup and `parse_from_iso8601` changes the accepted language (`20150830T123600Z,junk`)."""
+    import c02
+
+    n = 0
+    for r in list(c02.r1(ctx)) + list(c02.r1h(ctx)):
+        if "timestamp" in r.key or r.status != "PASS":
+            r.rule = "C16-R5"
+            n += 1
+            yield r
+    if not n:
+        yield MISSING("C16-R5", "timestamp/no-instance", "no timestamp instance of C02-R1 / C02-R1h")
